@@ -15,7 +15,17 @@ def main(argv) -> int:
     if argv[1] == "replay":
         data = json.loads(open(argv[2]).read())
         mod = importlib.import_module(f"mc.props.{data['property'].lower()}")
-        res = mod.replay(data["case"])
+        if data.get("needs_history") and data.get("shard") is not None:
+            from mc.engine.par import in_child
+            shard = data["shard"]
+            shard = tuple(tuple(x) if isinstance(x, list) else x for x in shard) if isinstance(shard, list) else shard
+            part = in_child(getattr(mod, data["shard_fn"]), shard)
+            hit = [v for v in part.get("violations", []) if v["signature"] == data["signature"]]
+            res = {"ok": not hit, "history_dependent": True, "shard": data["shard"],
+                   "observed": hit[0]["observed"] if hit else None,
+                   "case_found_again": hit[0]["case"] if hit else None}
+        else:
+            res = mod.replay(data["case"])
         print(json.dumps({"property": data["property"], "case": data["case"], **res},
                          indent=1, ensure_ascii=True, default=repr))
         if res.get("ok"):
